@@ -66,7 +66,7 @@ PY
 echo "== mutant: $M =="; (cd "$W/repo" && diff -ru /repo . --exclude=.git | head -60)
 (cd /verif/engine && go build -o "$W/c14-dev" ./c14/cmd) || exit 2
 mkdir -p "$W/std"; cp /repo/std/*.tsh "$W/std/"
-VERIF_TIER=$TIER VERIF_REPO="$W/repo" VERIF_ROOT="$W/root" "$W/c14-dev" > "$W/out.txt" 2> "$W/err.txt"; st=$?
+VERIF_TIER=$TIER VERIF_REPO="$W/repo" VERIF_ROOT="$W/root" timeout 1500 "$W/c14-dev" > "$W/out.txt" 2> "$W/err.txt"; st=$?
 cut -c1-420 "$W/out.txt" | head -${DEMO_LINES:-12}; tail -3 "$W/err.txt"; echo "exit status: $st; VIOLATION lines: $(grep -c '^VIOLATION' "$W/out.txt")"
-r=$(grep -o 'replay=[^ ]*' "$W/out.txt" | head -1 | cut -d= -f2)
+r=$(grep -o 'replay=/[^ ]*' "$W/out.txt" | head -1 | cut -d= -f2)
 if [ -n "$r" ] && [ -f "$r/replay.sh" ]; then echo "== replay of the first violation against the mutated copy =="; sed "s#/repo#$W/repo#g" "$r/replay.sh" > "$r/replay_mut.sh"; (cd "$r" && bash replay_mut.sh 2>&1 | tail -6); fi
